@@ -125,6 +125,8 @@ func init() {
 		"strings.ToLower":         stubStringsLit("ToLower"),
 		"strings.ToUpper":         stubStringsLit("ToUpper"),
 		"strings.Cut":             stubStringsLit("Cut"),
+		"(*sync.Pool).Get":        stubPoolGet,
+		"(*sync.Pool).Put":        func(e *Engine, c *callCtx) bool { return true },
 		"(*sync.Map).Load":        stubSyncMapLoad,
 		"(*sync.Map).Store":       stubSyncMapStore,
 		"(*sync.Map).LoadOrStore": stubSyncMapLoadOrStore,
@@ -1451,4 +1453,33 @@ func stubStringsLit(name string) stubFn {
 		}
 		return true
 	}
+}
+
+// ---------- sync.Pool ----------
+// A pool may drop its content at any time, so "always empty" is one of its legal behaviours: Get calls New (or
+// returns nil when New is unset), Put discards. Code that is only correct when Get returns a recycled object is not
+// covered by this model; code that is wrong with a FRESH object is.
+func stubPoolGet(e *Engine, c *callCtx) bool {
+	p, _ := c.args[0].(PtrV)
+	if p.obj == 0 {
+		e.panicCheck(c.st, c.f, c.in, e.tb.ff, "nil *sync.Pool")
+		return true
+	}
+	o := c.st.obj(p.obj)
+	if p.fld >= 0 {
+		o = c.st.obj(o.fields[p.fld].(RefV).obj)
+	}
+	fi := fieldIndex(o.typ, "New")
+	fv, _ := o.fields[fi].(FuncV)
+	if fv.fn == nil {
+		c.set(IfaceV{})
+		return true
+	}
+	res := c.res
+	e.callValue(c.st, fv, nil, func(s *State, v Value) {
+		if res != nil {
+			s.top().locals[res] = v
+		}
+	})
+	return false
 }
